@@ -762,3 +762,70 @@ def r19_9_delegated_rectangle(ck, P):
                     ck.violation(R, f.name, 'call of %s' % g.name, '%s passes %s >> %d to %s as argument %d but no guard on that path establishes that the low %d bit(s) of %s itself are zero: for the other values the rectangle handed on starts before / ends before the one requested, so pixels outside it are written and pixels inside it are not, while success is returned' % (f.name, f.params[src[1]][0] or 'parameter %d' % src[1], kk, g.name, k_, kk, f.params[src[1]][0] or 'the parameter'), c.loc())
                 else:
                     ck.ok(R, where, '%d rescaled coordinate(s), each guarded' % n if n else 'coordinates handed on unchanged')
+
+
+def r19_12_stride_pairs_with_its_buffer(ck, P):
+    """sibling agreement inside blt: the start address of each buffer is bits + stride * y + x with the stride and the coordinates that
+    belong to that buffer (src_* with src_*, dst_* / dest_* with dst_*)."""
+    R = ck.rule('C19-R12', 'in every function stored in imp->blt, each product of a row stride with a y coordinate pairs the source stride with the source y and the destination stride with the destination y, and the product is added to the buffer of the same side: a start address computed with the other buffer\'s stride lands in the wrong rows whenever the two strides differ', floor=8)
+    slots = slot_functions(P)
+    def side(nm):
+        nm = nm or ''
+        return 's' if nm.startswith('src') else 'd' if nm.startswith(('dst', 'dest')) else None
+    n = 0
+    for un, f in sorted(slots['blt'].items()):
+        pn = [p[0] for p in f.params]
+        def param_of(o, d=0):
+            y = f.v(o)
+            if o[0] == 'a':
+                return pn[o[1]]
+            if y is None or d > 6:
+                return None
+            if y.op in ('sext', 'zext', 'trunc', 'mul', 'shl', 'sdiv', 'udiv', 'ashr', 'lshr') :
+                # scaled strides (stride * 4 / 2 ...): keep following the non-constant operand
+                nc = [a for a in y.a if a[0] != 'c']
+                if len(nc) == 1:
+                    return param_of(nc[0], d + 1)
+                return None
+            if y.op == 'phi':
+                rs = {param_of(a, d + 1) for a in y.a}
+                rs.discard(None)
+                return rs.pop() if len(rs) == 1 else None
+            return None
+        for x in f.insts():
+            if x.op != 'mul':
+                continue
+            a, b = param_of(x.a[0]), param_of(x.a[1])
+            if not a or not b:
+                continue
+            st, yy = (a, b) if 'stride' in a else (b, a) if 'stride' in b else (None, None)
+            if st is None or not yy.endswith('_y'):
+                continue
+            n += 1; ck.saw(f)
+            where = '%s: %s * %s at %s' % (f.name, st, yy, x.loc())
+            if side(st) != side(yy):
+                ck.violation(R, f.name, 'row offset at %s' % x.loc(), '%s multiplies %s by %s: the row offset of one buffer is computed with the stride of the other, so for images of different strides the rectangle is read from / written to the wrong rows while TRUE is returned' % (f.name, st, yy), x.loc())
+                continue
+            # the buffer the offset is added to
+            bad = None
+            seen = set(); work = [x]
+            while work:
+                q = work.pop()
+                for z in f.users(q):
+                    if z.i in seen:
+                        continue
+                    seen.add(z.i)
+                    if z.op == 'getelementptr':
+                        r = f.root(f.path(z.a[0]))
+                        base = pn[r[1]] if r[0] == 'arg' else None
+                        if base and side(base) and side(base) != side(st):
+                            bad = (z, base)
+                    elif z.op in ('sext', 'zext', 'add', 'sub', 'mul', 'shl', 'trunc'):
+                        work.append(z)
+            if bad:
+                z, base = bad
+                ck.violation(R, f.name, 'row offset at %s' % z.loc(), '%s adds %s * %s to %s: the offset computed for one buffer is applied to the other' % (f.name, st, yy, base), z.loc())
+            else:
+                ck.ok(R, where)
+    if n == 0:
+        ck.incomplete(R, 'no stride * y product found in the blt functions')
